@@ -71,7 +71,9 @@ Theorem defaults : forall c,
   (c_api c = Define -> c_cmp c = tN -> c_order c = None -> explicit_flag c GOrder = tF) /\
   (c_api c = Define -> c_cmp c = tN -> c_order c = Some tN ->
      explicit_flag c GOrder = explicit_flag c GEq) /\
-  documented_default c GPickle = slots c /\
+  documented_default c GPickle =
+    (slots c || (base_generated_pair (c_base c) && negb (class_defines c Dg))) /\
+  (c_base c = BPlain -> documented_default c GPickle = slots c) /\
   (c_str c = None -> str_arg c = false) /\
   (c_ad c = None -> auto_detect c = match c_api c with AttrS => false | Define => true end) /\
   (c_slots c = None -> slots c = match c_api c with AttrS => false | Define => true end) /\
@@ -84,11 +86,30 @@ Theorem order_off_under_define : forall c, no_error c ->
 Proof. exact order_off_under_define_l. Qed.
 Print Assumptions order_off_under_define.
 
+(** Pickling helpers follow slotted-ness — or are needed because the class would
+    otherwise inherit an attrs-generated pair that only knows the base's fields. *)
 Theorem pickling_follows_slots : forall c, no_error c -> c_gs c = tN ->
   auto_detect c && existsb (body_defines c) [Dg; Dst] = false ->
-  if slots c then group_generated c GPickle else group_untouched c GPickle.
+  if slots c || (base_generated_pair (c_base c) && negb (body_defines c Dg))
+  then group_generated c GPickle else group_untouched c GPickle.
 Proof. exact pickling_follows_slots_l. Qed.
 Print Assumptions pickling_follows_slots.
+
+(** The base: only whether it carries an attrs-GENERATED pickling pair matters (slotted
+    or not, generated [__init__] or [__attrs_init__], user-defined dunders: irrelevant),
+    and that only moves the default of the pickling group: every other name is
+    unaffected, and an explicit flag or an auto-detected own method still wins. *)
+Theorem base_kind_irrelevant : forall c b,
+  base_generated_pair b = base_generated_pair (c_base c) -> decide (with_base c b) = decide c.
+Proof. exact base_kind_irrelevant_l. Qed.
+Print Assumptions base_kind_irrelevant.
+
+Theorem generated_base_pair_only_default : forall c b, no_error c ->
+  (forall d, d <> Dg -> d <> Dst -> prov_at (decide (with_base c b)) d = prov_at (decide c) d) /\
+  (c_gs c <> tN \/ auto_detect c && existsb (body_defines c) [Dg; Dst] = true ->
+     decide (with_base c b) = decide c).
+Proof. exact generated_base_pair_only_default_l. Qed.
+Print Assumptions generated_base_pair_only_default.
 
 Theorem str_off : forall c, no_error c ->
   prov_at (decide c) Ds = Some (if str_arg c then pG else untouched c Ds).
